@@ -76,7 +76,13 @@ func FindTimeRangeBucket(r *Range, timestamp uint64) uint64 {
 		return r.start
 	}
 	if timestamp >= r.end {
-		return r.end - r.step
+		// Clamp to the last bucket on the grid (the bucket containing end-1);
+		// r.end - r.step is off the grid when the range is not a multiple of
+		// the step, and wraps around when the step exceeds the range.
+		if r.end <= r.start {
+			return r.start
+		}
+		return r.start + ((r.end-1-r.start)/r.step)*r.step
 	}
 
 	index := ((timestamp - r.start) / r.step)
